@@ -168,23 +168,24 @@ def _atomgrid(g, rg, c, rotate):
     how = g.get("ctor", "uniform")
     lo, hi, k = g["deg"], g.get("deg_hi", g["deg"]), g.get("n_inner", 0)
     n = g["nr"]
+    mk = {} if g.get("method", "lebedev") == "lebedev" else {"method": g["method"]}  # the family of angular grids is the caller's choice
     if how == "uniform":
-        return AtomGrid(rg, degrees=[lo], center=c, rotate=rotate)
+        return AtomGrid(rg, degrees=[lo], center=c, rotate=rotate, **mk)
     if how == "list":
-        return AtomGrid(rg, degrees=[lo] * k + [hi] * (n - k), center=c, rotate=rotate)
+        return AtomGrid(rg, degrees=[lo] * k + [hi] * (n - k), center=c, rotate=rotate, **mk)
     if how == "array":
-        return AtomGrid(rg, degrees=np.array([lo] * k + [hi] * (n - k)), center=c, rotate=rotate)
+        return AtomGrid(rg, degrees=np.array([lo] * k + [hi] * (n - k)), center=c, rotate=rotate, **mk)
     if how == "matched":
         # unsupported degrees: the library moves each up to the next tabulated one (2 -> 3, 4 -> 5, 6 -> 7)
-        return AtomGrid(rg, degrees=np.array([max(lo - 1, 2)] * k + [hi - 1] * (n - k)), center=c, rotate=rotate)
+        return AtomGrid(rg, degrees=np.array([max(lo - 1, 2)] * k + [hi - 1] * (n - k)), center=c, rotate=rotate, **mk)
     if how == "sizes":
         from grid.angular import AngularGrid
 
-        sz = {d: AngularGrid(degree=d).size for d in (lo, hi)}
-        return AtomGrid(rg, sizes=[sz[lo]] * k + [sz[hi]] * (n - k), center=c, rotate=rotate)
+        sz = {d: AngularGrid(degree=d, **mk).size for d in (lo, hi)}
+        return AtomGrid(rg, sizes=[sz[lo]] * k + [sz[hi]] * (n - k), center=c, rotate=rotate, **mk)
     if how == "pruned":
         rb = float(rg.points[max(k, 1)]) * 0.999
-        return AtomGrid.from_pruned(rg, 1.0, r_sectors=[rb], d_sectors=[lo, hi], center=c, rotate=rotate)
+        return AtomGrid.from_pruned(rg, 1.0, r_sectors=[rb], d_sectors=[lo, hi], center=c, rotate=rotate, **mk)
     raise ValueError(how)
 
 
@@ -851,6 +852,10 @@ class PoissonSeamEngine:
             if grid["ctor"] == "matched":
                 grid["deg"] = 3 if grid["deg"] <= 3 else 5  # (lo - 1 must be matched back to lo)
             grid["n_inner"] = rng.choice([grid["nr"] // 3, grid["nr"] // 2, 5, grid["nr"] - 4])
+        if rng.random() < 0.25 and grid.get("ctor") != "matched":
+            grid["method"] = rng.choice(["spherical", "maxdet"])  # (degrees 3, 5, 7 are tabulated for both)
+            if grid["deg"] == 4:
+                grid["deg"] = 5
         grid["as_molgrid"] = rng.random() < 0.25
         ri = rng.choice([[500.0, 1e-3], [1000.0, 1e-4], [300.0, 1e-3]])
         grid["r_interval"] = [ri[0], max(ri[1], 2 * grid["rmin"])]  # must lie inside the transform's domain [rmin, inf)
